@@ -82,6 +82,32 @@ reg("reshape_blockwise_merge4", 1, lambda rng, vs: (), lambda vs, p: vs[0][..., 
     lambda da, xs, p: da.reshape_blockwise(da.repeat(xs[0][..., None], 2, axis=-1).rechunk({xs[0].ndim: -1}),
                                            xs[0].shape[:-1] + (xs[0].shape[-1] * 2,)), needs=lambda vs: vs[0].ndim >= 2 and nonempty(vs) and vs[0].dtype.kind in "iu")
 
+def _take_T_params(rng, vs):
+    v = vs[0]
+    perm = list(range(v.ndim))
+    rng.shuffle(perm)
+    ax = rng.randrange(v.ndim)
+    n = v.shape[perm[ax]]
+    idx = tuple(rng.randrange(n) for _ in range(rng.randint(1, n + 1)))
+    return (tuple(perm), ax, idx)
+
+
+# a list index directly above a transpose (the shuffle is pushed onto the INPUT axis axes[ax]); cyclic permutations included
+reg("take_over_transpose", 1, _take_T_params, lambda vs, p: np.take(vs[0].transpose(p[0]), list(p[2]), axis=p[1]),
+    lambda da, xs, p: xs[0].transpose(p[0])[(slice(None),) * p[1] + (list(p[2]),)],
+    needs=lambda vs: vs[0].ndim >= 2 and nonempty(vs) and vs[0].dtype.kind in "iu")
+reg("transpose_twice", 1, lambda rng, vs: (tuple(rng.sample(range(vs[0].ndim), vs[0].ndim)), tuple(rng.sample(range(vs[0].ndim), vs[0].ndim))),
+    lambda vs, p: vs[0].transpose(p[0]).transpose(p[1]), lambda da, xs, p: xs[0].transpose(p[0]).transpose(p[1]),
+    needs=lambda vs: vs[0].ndim >= 3 and vs[0].dtype.kind in "iu")
+
+# three output axes, uneven leading chunks, BOTH trailing output axes with several blocks
+reg("reshape_blockwise_uneven", 1, lambda rng, vs: (rng.randint(1, vs[0].shape[0] - 1), rng.randint(1, vs[0].shape[2] - 1)),
+    lambda vs, p: vs[0][..., None].repeat(2, -1).reshape(vs[0].shape[:-1] + (-1,)),
+    lambda da, xs, p: da.reshape_blockwise(
+        da.repeat(xs[0][..., None], 2, axis=-1).rechunk(((p[0], xs[0].shape[0] - p[0]), (1,) * xs[0].shape[1], (p[1], xs[0].shape[2] - p[1]), (2,))),
+        xs[0].shape[:-1] + (xs[0].shape[-1] * 2,)),
+    needs=lambda vs: vs[0].ndim == 3 and all(s >= 2 for s in vs[0].shape) and vs[0].dtype.kind in "iu")
+
 # ---------------------------------------------------------------- joining / editing
 reg("hstack_self", 1, lambda rng, vs: (), lambda vs, p: np.hstack([vs[0], vs[0] + 1]), lambda da, xs, p: da.hstack([xs[0], xs[0] + 1]), needs=nd(1))
 reg("vstack_self", 1, lambda rng, vs: (), lambda vs, p: np.vstack([vs[0], vs[0] * 2]), lambda da, xs, p: da.vstack([xs[0], xs[0] * 2]), needs=nd(1))
@@ -119,6 +145,11 @@ reg("pad", 1, _pad_params, lambda vs, p: np.pad(vs[0], p[0], mode=p[1]), lambda 
 reg("quantile", 1, lambda rng, vs: (rng.choice([0.0, 0.25, 0.5, 1.0]), _ax(rng, vs[0]), rng.random() < 0.5, rng.random() < 0.5),
     lambda vs, p: np.quantile(_f(vs[0]), p[0], axis=p[1], keepdims=p[2]),
     lambda da, xs, p: da.quantile(xs[0].astype("float64"), p[0], axis=p[1], keepdims=p[2], overwrite_input=p[3]),
+    needs=lambda vs: vs[0].ndim >= 1 and nonempty(vs) and vs[0].dtype.kind in "iu")
+# options that invite in-place work on the input block (a task must never write into the blocks it depends on: C10)
+reg("quantile_overwrite", 1, lambda rng, vs: (rng.choice([0.25, 0.5]), _ax(rng, vs[0])),
+    lambda vs, p: np.quantile(_f(vs[0]), p[0], axis=p[1], keepdims=True),
+    lambda da, xs, p: da.quantile(xs[0].astype("float64").rechunk({p[1]: -1}), p[0], axis=p[1], keepdims=True, overwrite_input=True),
     needs=lambda vs: vs[0].ndim >= 1 and nonempty(vs) and vs[0].dtype.kind in "iu")
 reg("median", 1, lambda rng, vs: (_ax(rng, vs[0]), rng.random() < 0.5), lambda vs, p: np.median(vs[0], axis=p[0], keepdims=p[1]),
     lambda da, xs, p: da.median(xs[0], axis=p[0], keepdims=p[1]), needs=lambda vs: vs[0].ndim >= 1 and nonempty(vs) and vs[0].dtype.kind in "iu")
@@ -185,7 +216,7 @@ def _shift_sum(d):
 
 
 reg("map_overlap_periodic_slice", 1,
-    lambda rng, vs: (rng.choice([1, 2, 3]), rng.randint(0, 3), rng.randint(0, 3)),
+    lambda rng, vs: (lambda d: (d, rng.choice([0, 1, d - 1, d, d + 1]), rng.choice([0, 1, d - 1, d, d + 1])))(rng.choice([1, 2, 2, 3, 3])),
     lambda vs, p: (np.roll(vs[0], p[0], 0) + np.roll(vs[0], -p[0], 0))[p[1]: vs[0].shape[0] - p[2]],
     lambda da, xs, p: da.map_overlap(_shift_sum(p[0]), xs[0], depth={0: p[0]}, boundary={0: "periodic"}, dtype=xs[0].dtype)[p[1]: xs[0].shape[0] - p[2]],
     needs=lambda vs: vs[0].ndim >= 1 and vs[0].shape[0] >= 7 and all(s > 0 for s in vs[0].shape) and vs[0].dtype.kind in "iu")
@@ -215,3 +246,8 @@ def applicable(name, vs):
         return c.needs is None or bool(c.needs(vs))
     except Exception:  # noqa: BLE001
         return False
+
+
+# calls that get several slots per round of gen_api_programs (many parameter regimes / directed edge cases)
+WEIGHTS = {"take_over_transpose": 3, "transpose_twice": 2, "quantile_overwrite": 2, "reshape_blockwise_uneven": 3, "map_overlap_periodic_slice": 4, "reshape_blockwise_merge": 3, "reshape_blockwise_merge4": 2, "quantile": 3, "median": 2, "pad": 3,
+           "tensordot": 2, "outer_self": 2, "topk": 2, "svd_s": 2, "qr_absr": 2}
